@@ -78,6 +78,10 @@ type Val struct {
 	B   []byte `json:"b,omitempty"`
 	U   uint64 `json:"u,omitempty"`
 	I   int64  `json:"i,omitempty"`
+	// Ns: sub-second part (nanoseconds) of a Time value handed to the API. The wire carries whole
+	// seconds (the first four bytes of an NTP timestamp), so it is cut off, not rounded, and a
+	// decoded Time never has one.
+	Ns  int64  `json:"ns,omitempty"`
 	Fam uint16 `json:"fam,omitempty"`
 	// Alt selects the alternative Go representation a caller may use for the
 	// same value: the 16-byte IPv4-mapped net.IP for IPv4 addresses.
@@ -159,7 +163,7 @@ func (v Val) ToDatatype() datatype.Type {
 	case TFloat64:
 		return datatype.Float64(math.Float64frombits(v.U))
 	case TTime:
-		return datatype.Time(time.Unix(v.I, 0))
+		return datatype.Time(time.Unix(v.I, v.Ns))
 	case TAddress:
 		switch v.Fam {
 		case 1:
@@ -424,6 +428,7 @@ type ValueOpts struct {
 	MaxBytes     int  // cap for byte strings
 	NoSNaN       bool // exclude signalling NaNs (reflect conversions quiet them)
 	AllowAmbAddr bool // allow the known-finding Address class
+	SubSecond    bool // Time values may carry a sub-second part (lost on the wire: only for API -> wire directions)
 }
 
 // Value draws a valid value of the given type (not Grouped).
@@ -461,10 +466,14 @@ func Value(t *rapid.T, typ string, o ValueOpts) Val {
 		}
 		return Val{T: typ, U: bits}
 	case TTime:
-		if rapid.IntRange(0, 2).Draw(t, "time-edge") == 0 {
-			return Val{T: typ, I: rapid.SampledFrom(timeEdges).Draw(t, "time")}
+		ns := int64(0)
+		if o.SubSecond && rapid.Bool().Draw(t, "time-subsecond") {
+			ns = rapid.SampledFrom([]int64{1, 250000000, 499999999, 500000000, 500000001, 750000000, 999999999}).Draw(t, "time-ns")
 		}
-		return Val{T: typ, I: rapid.Int64Range(refcodec.TimeMinUnix, refcodec.TimeMaxUnix).Draw(t, "time")}
+		if rapid.IntRange(0, 2).Draw(t, "time-edge") == 0 {
+			return Val{T: typ, I: rapid.SampledFrom(timeEdges).Draw(t, "time"), Ns: ns}
+		}
+		return Val{T: typ, I: rapid.Int64Range(refcodec.TimeMinUnix, refcodec.TimeMaxUnix).Draw(t, "time"), Ns: ns}
 	case TIPv4:
 		return Val{T: typ, B: rapid.SliceOfN(rapid.Byte(), 4, 4).Draw(t, "ipv4"), Alt: rapid.IntRange(0, 3).Draw(t, "ipv4-mapped-repr") == 0}
 	case TIPv6:
